@@ -32,6 +32,15 @@ class PathInfo:
                 out.append((atom, ev.op if pol else (not ev.op), ev))
         return out
 
+    def switches(self):
+        """[(resolved switch condition E, case value or 'default', event)]"""
+        out = []
+        for ev, env in self.steps:
+            if ev.kind == 'assume' and not isinstance(ev.op, bool):
+                lab = ev.op[1] if isinstance(ev.op, tuple) else ev.op
+                out.append((ev.e.subst(env), lab, ev))
+        return out
+
     def ret(self):
         r = [(ev, env) for ev, env in self.steps if ev.kind == 'ret']
         if not r:
@@ -54,6 +63,15 @@ class PathInfo:
     def feasible(self):
         """Drop paths on which a resolved branch condition is a constant contradicting the edge,
         or two relational assumptions over the same resolved operands contradict."""
+        sw = {}
+        for c, lab, ev in self.switches():
+            if lab != 'default':
+                if c.cv is not None and c.cv != lab:
+                    return False
+                if '->' not in c.s.split('(')[0]:
+                    if c.s in sw and sw[c.s] != lab:
+                        return False
+                    sw[c.s] = lab
         facts = {}
         for atom, truth, ev in self.assumes():
             p = aff.norm(atom)
